@@ -257,7 +257,7 @@ def addr_rule(ctx: Ctx, rid: str = "R03.addr") -> None:
                 ok = False
             r.check(ok, "DecodedAddress.num_tag_bits", init.loc(), "num_tag_bits is not 32 - (index + block + 2)")
     # every cache class decodes with the cache's own geometry
-    for cn in ("BaseCacheMemorySystem", "InstructionMemoryCacheSystem"):
+    for cn in ("BaseCacheMemorySystem",):
         f = m.method(cn, "_decode_address", own=True)
         rets = [n for n in walk_no_nested(f.node) if isinstance(n, ast.Return)]
         ok = len(rets) == 1 and isinstance(rets[0].value, ast.Call) and m.resolve_class(f.module, rets[0].value.func) is c
@@ -267,7 +267,7 @@ def addr_rule(ctx: Ctx, rid: str = "R03.addr") -> None:
             ok = args in ([f"{s0}.cache.num_index_bits", f"{s0}.cache.num_block_bits", "address"],
                           [f"{s0}.num_index_bits", f"{s0}.num_block_bits", "address"])
         r.check(ok, f"{cn}._decode_address", f.loc(), f"{cn}._decode_address does not decode with (index bits, block bits, address)")
-    r.floor(9)
+    r.floor(8)
 
 
 def cfg_rule(ctx: Ctx, rid: str = "R03.cfg") -> None:
@@ -284,7 +284,7 @@ def cfg_rule(ctx: Ctx, rid: str = "R03.cfg") -> None:
     r.check(same, "Memory-config", init.loc(b),
             f"cached back end is built on `{seg(init, a)}` but the uncached one is `{seg(init, b)}`")
     # fill
-    for cn, helper in (("BaseCacheMemorySystem", "_read_block_from_memory"), ("InstructionMemoryCacheSystem", "_read_block_from_memory")):
+    for cn, helper in (("BaseCacheMemorySystem", "_read_block_from_memory"),):
         f = m.method(cn, helper, own=True)
         comps = [n for n in ast.walk(f.node) if isinstance(n, ast.ListComp)]
         ok = False
@@ -334,7 +334,7 @@ def cfg_rule(ctx: Ctx, rid: str = "R03.cfg") -> None:
     txt = " ".join(ast.unparse(f.node).split())
     r.check("block.valid_bit and block.decoded_address.tag == address.tag" in txt, "CacheSet.get_block_index", f.loc(),
             "hit decision is no longer `valid and tag equal`")
-    r.floor(10)
+    r.floor(9)
 
 
 def run(ctx: Ctx) -> None:
